@@ -356,6 +356,7 @@ def r4_validators(ctx, E, ctor):
             ctx.ok("C18.R4", "etag site " + key, detail=sorted(s.how)[:2], where=F.loc(s.span))
     n = 0
     templates = set()
+    by_side = {}
     for o in outs:
         if o.kind != "return":
             continue
@@ -364,6 +365,12 @@ def r4_validators(ctx, E, ctor):
             ctx.violation("C18.R4", "C18.R4|etag-none", "etag() can return %s" % short(v, 40))
             continue
         n += 1
+        # which side of the epoch this row formats: `duration_since(UNIX_EPOCH)` answered Ok (at or after) or Err (before; the
+        # distance then comes from the error value)
+        for t_, vn_ in o.cons.variant.items():
+            if isinstance(t_, tuple) and t_ and t_[0] == "call" and t_[1].endswith("SystemTime::duration_since") and vn_ in ("Ok", "Err"):
+                fv_ = SM.fmt_value(agg_get(v, "0"))
+                by_side.setdefault(vn_, set()).add(SM.template_text(fv_.get("template")) if fv_["kind"] == "fmt" else None)
         fv = SM.fmt_value(agg_get(v, "0"))
         tt = SM.template_text(fv.get("template")) if fv["kind"] == "fmt" else None
         bad = []
@@ -388,6 +395,12 @@ def r4_validators(ctx, E, ctor):
             ctx.violation("C18.R4", "C18.R4|etag|%s" % bad[0][:40], "etag(): " + "; ".join(bad))
         else:
             ctx.ok("C18.R4", "etag row: %s over (inode, len, mtime secs, mtime nanos)" % tt)
+    both = (by_side.get("Ok", set()) & by_side.get("Err", set())) - {None}
+    if both:
+        ctx.violation("C18.R4", "C18.R4|etag|epoch-sides-collide", "etag(): a modification time before the epoch and the mirrored time after it are formatted with the same "
+                      "template %s (the distance to the epoch without its direction): two different modification times share a tag" % sorted(map(str, both)))
+    elif by_side.get("Ok") and by_side.get("Err"):
+        ctx.ok("C18.R4", "etag: times before and after the epoch use different templates")
     if len(templates) > 1:
         # two branches (before / after the epoch) must not collide: their literal parts differ
         ctx.ok("C18.R4", "etag branches use distinct templates %s" % sorted(templates), nontrivial=False)
